@@ -243,10 +243,28 @@ def gen_world(rng, ntorrents=None, features=()):
                     w.files[path] = (content, group[0])
                     w.add_file(rng.choice(w.scan) + (b"link%d" % group[0],), content, group[0])
     # presentation
+    if rng.chance(1, 10):
+        inside = sorted(d for d in w.dirs if len(d) > len(w.export) and d[:len(w.export)] == w.export)
+        if inside:
+            w.scan.append(rng.choice(inside))          # a directory INSIDE the export tree as a scan directory
     if rng.chance(1, 5):
         w.scan.append(w.export)                        # export directory among the scan directories
     elif rng.chance(1, 8):
         w.scan.append(())                              # the whole sandbox (contains export, bystanders, other scan dirs)
+    if rng.chance(1, 5):
+        # symbolic links below a scan directory: to a same-length file kept elsewhere, to a directory, dangling, and a loop
+        sd = rng.choice(w.scan) if w.scan else None
+        if sd is not None and sd != w.export and sd != ():
+            w.ghost_links = {}
+            for g in w.gts:
+                for f in g.files:
+                    if not f.pad and f.length > 0 and rng.chance(1, 2):
+                        real = (b"bystander", b"linked_%d" % len(w.ghost_links))
+                        if w.add_file(real, f.content):
+                            w.ghost_links[sd + (b"sym%d" % len(w.ghost_links),)] = real      # correct data, reachable only through a link
+            w.ghost_links[sd + (b"symdir",)] = (b"bystander",)
+            w.ghost_links[sd + (b"dangling",)] = (b"no", b"such", b"file")
+            w.ghost_links[sd + (b"loop",)] = sd
     if rng.chance(1, 8):
         # the same scan directories spelled with redundant separators or `.` components (what a script joining
         # "$BASE/" and "/sub" produces); the export directory keeps its plain spelling
@@ -327,8 +345,8 @@ def materialise(w, base):
         tpaths.append(tp)
     return root, tpaths
 
-def snapshot(root):
-    """(dirs, files{path tuple: (content, ino)}) below root"""
+def snapshot(root, skip=()):
+    """(dirs, files{path tuple: (content, ino)}) below root; `skip`: names the model does not know (ghost links)"""
     dirs, files = [], {}
     rb = root.encode()
     for dp, dn, fn in os.walk(rb):
@@ -337,6 +355,8 @@ def snapshot(root):
         if comps:
             dirs.append(comps)
         for f in fn:
+            if comps + (f,) in skip:
+                continue
             fp = os.path.join(dp, f)
             st = os.lstat(fp)
             if os.path.islink(fp):
@@ -382,7 +402,14 @@ def execute(w, keep=False, timeout=30):
     base = tempfile.mkdtemp(prefix="tbv-", dir=SHM)
     try:
         root, tpaths = materialise(w, base)
-        before_dirs, before_files = snapshot(root)
+        # ghost links: symbolic links below scan directories (to files and to directories). The directory walk of the
+        # tool skips symbolic links, so for the model they do not exist; they must still be there, unchanged, afterwards
+        ghosts = getattr(w, "ghost_links", {})
+        for p, tgt in sorted(ghosts.items()):
+            fp = path_bytes(root, p)
+            os.makedirs(os.path.dirname(fp), exist_ok=True)
+            os.symlink(path_bytes(root, tgt), fp)
+        before_dirs, before_files = snapshot(root, set(ghosts))
         args = [C.TBH, "run", "--export", w.export_arg if w.export_arg is not None else os.path.join(root, *[c.decode("utf-8", "surrogateescape") for c in w.export])]
         scan_args = w.scan_args if w.scan_args is not None else [os.path.join(root, *[c.decode("utf-8", "surrogateescape") for c in s]) for s in w.scan]
         scan_args = [root + "/" + a[len("\x00ABS/"):] if a.startswith("\x00ABS/") else a for a in scan_args]   # (not os.path.join: a leading "/" must stay a redundant separator)
@@ -412,8 +439,10 @@ def execute(w, keep=False, timeout=30):
             err = p.stderr.decode("utf-8", "replace")
         except subprocess.TimeoutExpired as e:
             out, rc, err = (e.stdout or b"").decode("utf-8", "replace"), "timeout", ""
-        after_dirs, after_files = snapshot(root)
+        after_dirs, after_files = snapshot(root, set(ghosts))
         r = RunResult()
+        r.ghost_changed = any((not os.path.islink(path_bytes(root, p))) or os.readlink(path_bytes(root, p)) != path_bytes(root, tgt)
+                              for p, tgt in ghosts.items())
         r.world, r.root, r.rc, r.stdout, r.stderr = w, root, rc, out, err
         r.scan_abs = r_scan_abs
         r.before_dirs, r.before_files, r.after_dirs, r.after_files = before_dirs, before_files, after_dirs, after_files
